@@ -355,7 +355,7 @@ inline bool progress_S(Rng& r, uint64_t idx)
   SW& a = run.spawn();
   SW* ap = &a;
   uint32_t const episodes = static_cast<uint32_t>(r.range(2, 8));
-  uint64_t blocked_episodes = 0, probes = 0;
+  uint64_t blocked_episodes = 0, probes = 0, unformattable = 0;
   bool ok = true;
   for (uint32_t e = 0; e < episodes && ok && !run.failed; ++e)
   {
@@ -366,6 +366,16 @@ inline bool progress_S(Rng& r, uint64_t idx)
       if (a.w->parked()) { run.poll(); run.resume(a); continue; }
       uint32_t len = r.chance(1, 5) ? static_cast<uint32_t>(r.range(0, kMaxPayload / 2)) : static_cast<uint32_t>(r.range(0, 90));
       bool* okp = &ok;
+      if (r.chance(1, 10))
+      {
+        // what is ahead of the blocked call may be a statement that cannot be formatted (user formatter throwing, also
+        // through a named placeholder): it must be consumed like any other
+        int const kind = static_cast<int>(r.pick({3, 4, 5, 9, 10, 11}));
+        run.run_on(a, [wp, ap, kind] { log_faulty(wp->loggers[0].lg, static_cast<uint8_t>(kind), ap->tid, ap->seq++); }, "log");
+        ++unformattable;
+        if (r.chance(1, 2)) run.poll();
+        continue;
+      }
       run.run_on(a, [wp, ap, len, okp] { bool threw; log_maybe_throw(ap->issues, wp->loggers[0].lg, 0, ap->tid, ap->seq++, len, threw); (void)okp; }, "log");
       if (r.chance(1, 2)) run.poll();
     }
@@ -402,6 +412,7 @@ inline bool progress_S(Rng& r, uint64_t idx)
   stat_add("progress_scenarios");
   if (w.user_clock_mask) stat_add("progress_scenarios_with_user_clock_loggers");
   stat_add("progress_near_capacity_requests", static_cast<long long>(probes));
+  stat_add("progress_unformattable_statements_ahead_of_a_probe", static_cast<long long>(unformattable));
   stat_add("progress_blocked_episodes", static_cast<long long>(blocked_episodes));
   stat_sig("progress_sigs", std::string{kQueueName} + "/" + std::to_string(run.sig_hash));
   w.teardown_loggers();
